@@ -420,6 +420,7 @@ pub fn leecher(cfg: LeecherCfg) -> Behaviour {
                 if !allowed { break; }
                 let owned: Vec<usize> = (0..t.n()).filter(|i| client_has[*i]).collect();
                 let fuzz = io.rng.below(1000) < cfg.fuzz;
+                if owned.is_empty() && cfg.fuzz == 0 { break; }
                 let (i, b, l) = if fuzz || owned.is_empty() {
                     let pl = t.piece_len as u32;
                     let i = match io.rng.below(6) { 0 => t.n() as u32, 1 => u32::MAX, 2 => t.n() as u32 - 1, _ => io.rng.below(t.n() as u64 + 1) as u32 };
